@@ -479,3 +479,49 @@ func containsItem(ss []string, x string) bool {
 	}
 	return false
 }
+
+// RunCodecCBOR: the CBOR decoder of constraint systems accepts whatever the encoder can emit (no element limits
+// below the maximum), and the encoder is the deterministic core mode.
+func RunCodecCBOR(p *Prog, r *Report) {
+	limits := map[string]int64{}
+	det := false
+	var pos, dpos string
+	for _, fn := range p.Funcs {
+		pk := FuncPkg(fn)
+		if pk == nil || pk.Path() != modPath+"/constraint" {
+			continue
+		}
+		for _, b := range fn.Blocks {
+			for _, ins := range b.Instrs {
+				switch x := ins.(type) {
+				case *ssa.Store:
+					fa, ok := x.Addr.(*ssa.FieldAddr)
+					if !ok || namedName(fa.X.Type()) != "DecOptions" {
+						continue
+					}
+					if c, ok := x.Val.(*ssa.Const); ok && c.Value != nil {
+						limits[fieldName(fa.X.Type(), fa.Field)] = c.Int64()
+						pos = p.Pos(ins.Pos())
+					}
+				case *ssa.Call:
+					if strings.HasSuffix(CalleeName(&x.Call), "cbor/v2.CoreDetEncOptions") {
+						det = true
+						dpos = p.Pos(ins.Pos())
+					}
+				}
+			}
+		}
+	}
+	for _, f := range []string{"MaxArrayElements", "MaxMapPairs"} {
+		if limits[f] >= 1<<31-1 {
+			r.Pass("CODEC-CBOR", modPath+"/constraint", "(*System).FromBytes", "declimit:"+f, pos, fmt.Sprintf("decoder limit %s = %d (maximum): every system the encoder can write can be read back", f, limits[f]), true)
+		} else {
+			r.Fail("CODEC-CBOR", modPath+"/constraint", "(*System).FromBytes", "declimit:"+f, pos, fmt.Sprintf("decoder limit %s is %d (library default 131072 when unset): a constraint system with more inputs / log entries / lookup entries is written but cannot be read back", f, limits[f]))
+		}
+	}
+	if det {
+		r.Pass("CODEC-CBOR", modPath+"/constraint", "(*System).ToBytes", "encmode:deterministic", dpos, "encoder built from cbor.CoreDetEncOptions (sorted map keys, canonical integers)", true)
+	} else {
+		r.Fail("CODEC-CBOR", modPath+"/constraint", "(*System).ToBytes", "encmode:deterministic", "-", "the CBOR encoder is no longer the deterministic core mode: serialized bytes may depend on map order")
+	}
+}
